@@ -83,7 +83,7 @@ def mpc_hash(z):
 
 def mpc_conjugate(z, prec, rnd=round_fast):
     re, im = z
-    return re, mpf_neg(im, prec, rnd)
+    return mpf_pos(re, prec, rnd), mpf_neg(im, prec, rnd)
 
 def mpc_is_nonzero(z):
     return z != mpc_zero
@@ -408,8 +408,8 @@ def mpc_nthroot(z, n, prec, rnd=round_fast):
     prec2 = prec+10 + 10
     nth = mpf_rdiv_int(1, fn, prec2)
     re, im = mpc_pow((a, b), (nth, fzero), prec2, rnd)
-    re = normalize(re[0], re[1], re[2], re[3], prec, rnd)
-    im = normalize(im[0], im[1], im[2], im[3], prec, rnd)
+    re = mpf_pos(re, prec, rnd)
+    im = mpf_pos(im, prec, rnd)
     return re, im
 
 def mpc_cbrt(z, prec, rnd=round_fast):
@@ -777,7 +777,7 @@ def mpc_atanh(z, prec, rnd=round_fast):
     # wrong real part (should be zero)
     if v[0] == fnan and mpc_is_inf(z):
         v = (fzero, v[1])
-    return v
+    return mpc_pos(v, prec, rnd)
 
 def mpc_fibonacci(z, prec, rnd=round_fast):
     re, im = z
